@@ -5,5 +5,6 @@ from . import readers
 def run(ck, fb, fbd):
     readers.error_state_rules(ck, fb)
     readers.validation_rules(ck, fb)
+    readers.order_rule(ck, fb)
     readers.stream_rules(ck, fb)
     readers.enum_string_rules(ck, fb)
